@@ -428,6 +428,12 @@ class Sim(object):
                     continue
                 if until is not None and until(self):
                     return 'done'
+                # until() may have injected a fault or an operator command
+                # (clock jump, end of a stall ...): look again before the
+                # clock is moved to the next timer
+                self._wake_due()
+                if self._runnable():
+                    continue
                 nxt = self._next_time()
                 if nxt is None:
                     live = [t for t in self.tasks
